@@ -11,6 +11,8 @@ use crate::world::*;
 use proptest::prelude::*;
 use serde::{Deserialize, Serialize};
 use std::collections::BTreeMap;
+use std::sync::Arc;
+use anda_db::schema::Fv;
 use vf_core::sched::Chooser;
 use vf_core::{CaseCtx, Runner};
 
@@ -167,7 +169,7 @@ pub fn check_fault(case: &Case, ch: &mut Chooser, fail: u64, ctx: &mut CaseCtx) 
     unique_ok(&out.fin.docs).map_err(|e| format!("release {fail} failed (returns {:?}): {e}", out.rets))?;
     // no trace of writes that returned Err: final state explained by the ops that returned Ok only
     let ok_case = Case { pre: case.pre.clone(), ops: case.ops.clone(), schedule: vec![], cold: case.cold };
-    let mut out2 = RunOut { rets: out.rets.clone(), span: out.span.clone(), fin: out.fin.clone(), flush_snaps: vec![], steps: out.steps, interleaved: out.interleaved, crash_snap: None, acked: out.acked.clone(), started: out.started.clone(), poisoned: false };
+    let mut out2 = RunOut { final_snap: None, rets: out.rets.clone(), span: out.span.clone(), fin: out.fin.clone(), flush_snaps: vec![], steps: out.steps, interleaved: out.interleaved, crash_snap: None, acked: out.acked.clone(), started: out.started.clone(), poisoned: false };
     // an op that failed with the injected error must have left no trace: treat it as absent by
     // demanding that the final state is reachable by the other ops; contenders may legitimately have
     // been refused because the failing writer still held the value (documented in DESIGN C04), so
@@ -194,6 +196,116 @@ pub fn check_fault(case: &Case, ch: &mut Chooser, fail: u64, ctx: &mut CaseCtx) 
 
 pub fn xcase_strategy() -> impl Strategy<Value = XCase> {
     (case_strategy(3), any::<u16>(), any::<u16>()).prop_map(|(base, crash, fail)| XCase { base, crash, fail })
+}
+
+
+// ---------------------------------------------------------------------------
+// (c) real parallelism: writers on a multi-threaded runtime, no scheduler
+// ---------------------------------------------------------------------------
+
+/// The parking store interleaves operations at backend calls on ONE thread; a check-then-act window
+/// inside a synchronous section (between an index lookup and the index insert) has no backend call
+/// in it (seeded change C04-3). Here 2-4 writers run on a multi-threaded runtime and contend for one
+/// unique value per round behind a barrier. The schedule is not owned: a replay runs the parameters
+/// 20 times.
+#[derive(Clone, Debug, Serialize, Deserialize)]
+pub struct SCase {
+    pub writers: u8,
+    pub rounds: u16,
+    /// 0 = adds of one name; 1 = updates of existing documents to one name; 2 = adds of one ukeys
+    /// member (unique array); 3 = one add and updates mixed
+    pub mode: u8,
+}
+
+fn s_strategy() -> impl Strategy<Value = SCase> {
+    (2u8..=4, 30u16..120, 0u8..4).prop_map(|(writers, rounds, mode)| SCase { writers, rounds, mode })
+}
+
+fn stress_once(c: &SCase) -> Result<u64, String> {
+    use object_store::memory::InMemory;
+    let n = c.writers as usize;
+    let rt = tokio::runtime::Builder::new_multi_thread().worker_threads(n).enable_all().build().map_err(|e| e.to_string())?;
+    rt.block_on(async {
+        let store: Arc<dyn object_store::ObjectStore> = Arc::new(InMemory::new());
+        let db = connect(store, false).await.map_err(|e| format!("connect: {e}"))?;
+        let idx = idx_c05();
+        let col = open(&db, &idx).await.map_err(|e| format!("open: {e}"))?;
+        let spec = |name: u16, uk: Option<u16>| -> MDoc {
+            let mut f = DocSpec { name: 0, age: (name % 3) as u8, score: 0, tags: vec![], opt: None, ukeys: vec![], attrs: vec![], body: vec![(name % 5) as u8], emb: 0 }.fields();
+            f.insert("name".into(), Fv::Text(format!("s{name}")));
+            if let Some(u) = uk {
+                f.insert("ukeys".into(), Fv::Array(vec![Fv::Text(format!("su{u}"))]));
+            }
+            f
+        };
+        // documents the update modes rename: one per writer, distinct names
+        let mut own: Vec<u64> = vec![];
+        for t in 0..n {
+            let d = make_doc(&col, &spec(60_000 + t as u16, None))?;
+            own.push(col.add(d).await.map_err(|e| format!("pre add: {e}"))?);
+        }
+        let mut contended = 0u64;
+        for r in 0..c.rounds {
+            let barrier = Arc::new(tokio::sync::Barrier::new(n));
+            let mut hs = vec![];
+            for t in 0..n {
+                let (col, barrier, c, id) = (col.clone(), barrier.clone(), c.clone(), own[t]);
+                let add_fields = match c.mode {
+                    2 => spec(10_000 + r * 8 + t as u16, Some(r)),
+                    _ => spec(r, None),
+                };
+                hs.push(tokio::spawn(async move {
+                    barrier.wait().await;
+                    let updating = c.mode == 1 || (c.mode == 3 && t > 0);
+                    if updating {
+                        let mut fields = BTreeMap::new();
+                        fields.insert("name".to_string(), Fv::Text(format!("s{r}")));
+                        col.update(id, fields).await.map(|_| id).map_err(|e| format!("{e:?}"))
+                    } else {
+                        match make_doc(&col, &add_fields) {
+                            Ok(d) => col.add(d).await.map_err(|e| format!("{e:?}")),
+                            Err(e) => Err(e),
+                        }
+                    }
+                }));
+            }
+            let mut winners = vec![];
+            for (t, h) in hs.into_iter().enumerate() {
+                match h.await.map_err(|e| format!("a writer task failed: {e}"))? {
+                    Ok(id) => winners.push((t, id)),
+                    Err(e) if e.contains("AlreadyExists") => {}
+                    Err(e) => return Err(format!("round {r}: writer {t} failed with something else than a uniqueness conflict: {}", e.chars().take(300).collect::<String>())),
+                }
+            }
+            if winners.len() < n {
+                contended += 1;
+            }
+            // the invariant, on the live handle: no two live documents share the contested value
+            let mut docs = Model::new();
+            for id in col.ids() {
+                let d = col.get(id).await.map_err(|e| format!("round {r}: document {id} is listed but unreadable: {e}"))?;
+                docs.insert(id, doc_fields(&d));
+            }
+            unique_ok(&docs).map_err(|e| format!("round {r} ({} writers, mode {}, winners {winners:?}): {e}", n, c.mode))?;
+            if r % 16 == 15 || r + 1 == c.rounds {
+                check_indexes(&col, &docs, &idx, &format!("round {r} of the parallel writers")).await?;
+            }
+        }
+        Ok(contended)
+    })
+}
+
+pub fn run_stress(c: &SCase, ctx: &mut CaseCtx) -> Result<(), String> {
+    let repeats = if ctx.strict { 20 } else { 1 };
+    for _ in 0..repeats {
+        let contended = stress_once(c)?;
+        ctx.count("rounds_in_which_a_writer_was_refused", contended);
+        ctx.count("rounds", c.rounds as u64);
+    }
+    ctx.label(["mode:add_add", "mode:update_update", "mode:add_add_unique_array", "mode:add_update"][c.mode as usize % 4]);
+    ctx.label(format!("writers:{}", c.writers));
+    ctx.nontrivial = true;
+    Ok(())
 }
 
 pub fn run_b_e(r: &mut Runner) {
@@ -291,5 +403,12 @@ pub fn run_b_e(r: &mut Runner) {
             ctx.nontrivial = a || b;
             Ok(())
         },
+    );
+    r.sub(
+        "parallel_writers_stress",
+        "2-4 writers on a multi-threaded runtime (no scheduler) x 30-119 rounds: behind a barrier every writer adds a document with the SAME new name / the same new member of the unique array, or renames its own document to the same name, or one adds while the others rename; every refusal must be a uniqueness conflict; after every round no two live documents share a unique value, and every 16 rounds all indexes agree with the documents. Reaches check-then-act windows inside one synchronous section, which contain no backend call for the parking store to stop at. Not replayable step by step: a replay runs the parameters 20 times. Non-trivial = always (every round is contended by all writers)",
+        (48, 1_500),
+        s_strategy,
+        run_stress,
     );
 }
